@@ -9,7 +9,12 @@
 EXTENDS Integers, Sequences
 
 Max(a, b) == IF a > b THEN a ELSE b
-RoundUp(x, m) == ((x + m - 1) \div m) * m
+RECURSIVE GCD(_, _)
+GCD(a, b) == IF b = 0 THEN a ELSE GCD(b, a % b)
+\* round x up to a multiple of m; saturates at 2^31-1 (TLC integers are 32 bit; such values are refused anyway)
+RoundUp(x, m) == IF x % m = 0 THEN x
+                 ELSE IF (x \div m) + 1 > 2147483647 \div m THEN 2147483647
+                 ELSE ((x \div m) + 1) * m
 
 Widths == {1, 4, 8, 16, 24, 32, 64}
 
@@ -27,7 +32,12 @@ Dflt(v, d) == IF v = 0 THEN d ELSE v
 
 \* largest d in 1..m that divides e (the "reduce until fits" loop)
 LargestDivLE(e, m) == IF m >= e THEN e
-                      ELSE CHOOSE d \in 1..m : e % d = 0 /\ \A k \in (d+1)..m : e % k # 0
+                      ELSE LET Divs == { d \in 1..m : e % d = 0 }
+                           IN CHOOSE d \in Divs : \A k \in Divs : k <= d
+
+\* definitions whose block parameters exceed 2^30 - as given or after alignment - are refused
+ParamMax == 1073741824
+InRange(def) == def.spd <= ParamMax /\ def.sdf <= ParamMax /\ def.eps <= ParamMax /\ def.sumdf <= ParamMax
 
 \* def = [spd, sdf, eps, sumdf, adf, udf]; w = sample width in bits
 Normalise(w, def) ==
@@ -46,9 +56,11 @@ Normalise(w, def) ==
         epd   == LargestDivLE(eps1, spd1 \div sdf)
     IN [spd |-> sdf * epd, sdf |-> sdf, eps |-> eps1, sumdf |-> sum, adf |-> adf, udf |-> udf]
 
+Acceptable(w, def) == InRange(def) /\ InRange(Normalise(w, [def EXCEPT !.adf = 0, !.udf = 0]))
+
 \* the relations of C16 on stored parameters p for width w
 Normalised(w, p) ==
-    /\ (p.sdf * w) % 256 = 0                  \* a level-1 entry covers a multiple of 256 bits
+    /\ p.sdf % (256 \div GCD(w, 256)) = 0     \* a level-1 entry covers a multiple of 256 bits: (sdf * w) % 256 = 0
     /\ p.spd % p.sdf = 0                      \* a block holds whole entries
     /\ p.eps % (p.spd \div p.sdf) = 0         \* a summary chunk holds whole blocks' entries
     /\ p.eps % p.sumdf = 0                    \* ... and whole next-level groups
